@@ -10,11 +10,15 @@ C16 — property theorems.  Bit-level IEEE-754 semantics of the exact <cmath> fu
    NaN ↦ NaN, ±inf ↦ ±inf (`rounding_special`).
  * classification partitions the patterns; fabs / copysign / signbit touch the sign bit only.
  * nextafter is adjacent in the value order; fmin/fmax select a lower/upper bound and skip a NaN.
- * tetl's own algorithms (nextafter, fmin, fmax, isfinite, constant-evaluated signbit/copysign) equal the spec
-   for all inputs; `abs_impl` equals fabs except on -0.0 (`absImpl_eq_partial`, `absImpl_counterexample`);
-   gcem's constant-evaluated floor/ceil/trunc/round deviate (`gcem*_counterexample`).
+ * tetl's own algorithms (nextafter, fmin, fmax, isfinite, abs_impl, signbit/copysign fallbacks) equal the spec
+   for all inputs (`absImpl_eq`: -0.0 included since the fix); gcem's constant-evaluated floor/ceil/trunc/round
+   (repaired by property C13, model imported from `Tetl.C13.Model`) equal the spec for every pattern and never
+   leave the constant-expression subset (`gcemFloor_eq`, `gcemCeil_eq`, `gcemTrunc_eq`, `gcemRound_eq`).
 -/
 import TetlProofs.C16.Lemmas
+import TetlProofs.C16.Bridge
+import TetlProofs.C13.GcemValue
+import TetlProofs.C13.GcemRound
 set_option linter.unusedVariables false
 set_option linter.unusedSimpArgs false
 set_option linter.unnecessarySeqFocus false
@@ -264,45 +268,87 @@ theorem nextafter_special (F : Fmt) (x y : Nat) :
   · intro hx hy hk; simp [hx, hy, hk]
 
 
-/-- `abs_impl` (`n >= 0 ? n : n * -1`) equals fabs on every non-NaN pattern except -0.0
-    (known finding F-C16-abs-negative-zero; the excluded class is exactly `sign ∧ abs = 0`) -/
-theorem absImpl_eq_partial (F : Fmt) (x : Nat) (hxw : x < 2 ^ F.width) (hn : F.isNaN x = false)
-    (h0 : ¬ (F.sign x = true ∧ F.abs x = 0)) : Model.absImpl F x = F.fabs x := by
+/-- `abs_impl` (`n > 0 ? n : n == 0 ? T(0) : n * -1`, repaired: F-C16-abs-negative-zero) equals fabs on every
+    non-NaN pattern, -0.0 included; a NaN stays a NaN (the sign and payload of a NaN result are not observed) -/
+theorem absImpl_eq (F : Fmt) (x : Nat) (hxw : x < 2 ^ F.width) (hn : F.isNaN x = false) :
+    Model.absImpl F x = F.fabs x := by
   have hd := decomp F x hxw
   unfold Model.absImpl Model.neg Fmt.fabs
   have hk : F.key x = if F.sign x then -(F.abs x : Int) else (F.abs x : Int) := rfl
   cases hs : F.sign x
   · simp only [hs, Bool.false_eq_true, if_false, Fmt.withSign, Nat.zero_add] at hd hk
-    have : (0 : Int) ≤ F.key x := by omega
-    simp [hn, this]; omega
+    by_cases h0 : F.abs x = 0
+    · have h1 : ¬ (0 : Int) < F.key x := by omega
+      have h2 : F.key x = 0 := by omega
+      simp [hn, h1, h2, h0]
+    · have h1 : (0 : Int) < F.key x := by omega
+      simp [hn, h1]; omega
   · simp only [hs, if_true] at hk
-    have hne : F.abs x ≠ 0 := fun h => h0 ⟨hs, h⟩
-    have : ¬ (0 : Int) ≤ F.key x := by omega
-    simp [hn, this, Fmt.withSign]
-example : b32.isNaN 0xC0200000 = false ∧ ¬ (b32.sign 0xC0200000 = true ∧ b32.abs 0xC0200000 = 0) := by decide  -- -2.5f
+    have h1 : ¬ (0 : Int) < F.key x := by omega
+    by_cases h0 : F.abs x = 0
+    · have h2 : F.key x = 0 := by omega
+      simp [hn, h1, h2, h0]
+    · have h2 : ¬ F.key x = 0 := by omega
+      simp [hn, h1, h2, Fmt.withSign]
+example : b32.isNaN 0x80000000 = false ∧ Model.absImpl b32 0x80000000 = 0 := by decide  -- -0.0f
 
-/-- known finding F-C16-abs-negative-zero: `abs_impl` (`n >= 0 ? n : n * -1`) leaves -0.0 untouched -/
-theorem absImpl_counterexample :
-    Model.absImpl b32 0x80000000 = 0x80000000 ∧ b32.fabs 0x80000000 = 0 ∧
-    Model.absImpl b64 0x8000000000000000 = 0x8000000000000000 ∧ b64.fabs 0x8000000000000000 = 0 := by
-  decide
+theorem absImpl_nan (F : Fmt) (x : Nat) (hn : F.isNaN x = true) : F.isNaN (Model.absImpl F x) = true := by
+  unfold Model.absImpl Model.neg
+  simp only [hn, Bool.not_true, Bool.false_and, Bool.false_eq_true, if_false]
+  unfold Fmt.isNaN at hn ⊢
+  rw [abs_withSign F _ _ (abs_lt' F x)]; exact hn
 
-/-- known finding F-C16-gcem-rounding-constexpr: gcem returns a tiny argument itself, and +0 for ceil/trunc of
-    a negative fraction -/
-theorem gcemFloor_counterexample :
-    Model.gcemFloor b32 1 = .ok 1 ∧ b32.floor 1 = 0 ∧
-    Model.gcemFloor b32 0x80000001 = .ok 0x80000001 ∧ b32.floor 0x80000001 = 0xBF800000 := by
-  decide
-theorem gcemCeil_counterexample :
-    Model.gcemCeil b32 1 = .ok 1 ∧ b32.ceil 1 = 0x3F800000 ∧
-    Model.gcemCeil b32 0xBF000000 = .ok 0 ∧ b32.ceil 0xBF000000 = 0x80000000 := by
-  decide
-theorem gcemTrunc_counterexample :
-    Model.gcemTrunc b32 1 = .ok 1 ∧ b32.trunc 1 = 0 ∧
-    Model.gcemTrunc b32 0xBF000000 = .ok 0 ∧ b32.trunc 0xBF000000 = 0x80000000 := by
-  decide
-theorem gcemRound_counterexample :
-    Model.gcemRound b32 1 = .ok 1 ∧ b32.round 1 = 0 := by
-  decide
+/-! ### the constant-evaluated rounding functions (gcem, repaired by property C13) equal the specification
+
+`Model.gcemFloor F` is `Tetl.C13.Model.gcemFloor F.cv`: the operation-by-operation model of gcem's `floor_check` …
+(`x == 0`, `abs(x) >= 1/epsilon`, `static_cast<long long>`, the float subtraction / addition / multiplication with
+their IEEE roundings).  `Tetl.C13.Lemmas.gcem*_value` proves that this code computes C13's bit-level specification
+`FSpec.roundTo` and never reaches an out-of-range conversion; `roundTo_eq_roundWith` (Bridge.lean) proves that
+C13's and C16's bit-level specifications are the same function.  `mbits ≤ 62`: the integer part must fit `long long`
+(binary32, binary64; not binary128). -/
+
+theorem std_cv (F : Fmt) (hE : 3 ≤ F.ebits) (hM : 1 ≤ F.mbits) (h62 : F.mbits ≤ 62) (hR : F.bias + F.mbits < F.emax) :
+    Tetl.C13.Lemmas.Std F.cv ∧ 2 ≤ F.cv.bias := by
+  have hb : 2 ≤ F.bias := by
+    unfold Fmt.bias
+    have : 2 ^ 2 ≤ 2 ^ (F.ebits - 1) := Nat.pow_le_pow_right (by decide) (by omega)
+    omega
+  exact ⟨⟨by show 1 ≤ F.bias; omega, hM, h62, hR⟩, hb⟩
+
+theorem gcemFloor_eq (F : Fmt) (hE : 3 ≤ F.ebits) (hM : 1 ≤ F.mbits) (h62 : F.mbits ≤ 62)
+    (hR : F.bias + F.mbits < F.emax) (x : Nat) (hx : x < 2 ^ F.width) : Model.gcemFloor F x = .ok (F.floor x) := by
+  have hs := (std_cv F hE hM h62 hR).1
+  unfold Model.gcemFloor
+  rw [Tetl.C13.Lemmas.gcemFloor_value F.cv hs x hx,
+    roundTo_floor F hE hM hR (fun n hn => Tetl.C13.Lemmas.roundUnits_int F.cv hs n hn) x hx]
+theorem gcemCeil_eq (F : Fmt) (hE : 3 ≤ F.ebits) (hM : 1 ≤ F.mbits) (h62 : F.mbits ≤ 62)
+    (hR : F.bias + F.mbits < F.emax) (x : Nat) (hx : x < 2 ^ F.width) : Model.gcemCeil F x = .ok (F.ceil x) := by
+  have hs := (std_cv F hE hM h62 hR).1
+  unfold Model.gcemCeil
+  rw [Tetl.C13.Lemmas.gcemCeil_value F.cv hs x hx,
+    roundTo_ceil F hE hM hR (fun n hn => Tetl.C13.Lemmas.roundUnits_int F.cv hs n hn) x hx]
+theorem gcemTrunc_eq (F : Fmt) (hE : 3 ≤ F.ebits) (hM : 1 ≤ F.mbits) (h62 : F.mbits ≤ 62)
+    (hR : F.bias + F.mbits < F.emax) (x : Nat) (hx : x < 2 ^ F.width) : Model.gcemTrunc F x = .ok (F.trunc x) := by
+  have hs := (std_cv F hE hM h62 hR).1
+  unfold Model.gcemTrunc
+  rw [Tetl.C13.Lemmas.gcemTrunc_value F.cv hs x hx,
+    roundTo_trunc F hE hM hR (fun n hn => Tetl.C13.Lemmas.roundUnits_int F.cv hs n hn) x hx]
+theorem gcemRound_eq (F : Fmt) (hE : 3 ≤ F.ebits) (hM : 1 ≤ F.mbits) (h62 : F.mbits ≤ 62)
+    (hR : F.bias + F.mbits < F.emax) (x : Nat) (hx : x < 2 ^ F.width) : Model.gcemRound F x = .ok (F.round x) := by
+  obtain ⟨hs, hb2⟩ := std_cv F hE hM h62 hR
+  unfold Model.gcemRound
+  rw [Tetl.C13.Lemmas.gcemRound_value F.cv hs hb2 x hx,
+    roundTo_round F hE hM hR (fun n hn => Tetl.C13.Lemmas.roundUnits_int F.cv hs n hn) x hx]
+/-- the hypotheses hold for binary32 and binary64; a tiny, a negative-fraction and a huge argument
+    (the three classes of the former finding F-C16-gcem-rounding-constexpr) -/
+example : Model.gcemFloor b32 0x80000001 = .ok (b32.floor 0x80000001) :=
+  gcemFloor_eq b32 (by decide) (by decide) (by decide) (by decide) _ (by decide)
+example : Model.gcemCeil b32 0xBF000000 = .ok (b32.ceil 0xBF000000) :=
+  gcemCeil_eq b32 (by decide) (by decide) (by decide) (by decide) _ (by decide)
+example : Model.gcemTrunc b64 0xC3E0000000000001 = .ok (b64.trunc 0xC3E0000000000001) :=
+  gcemTrunc_eq b64 (by decide) (by decide) (by decide) (by decide) _ (by decide)
+example : Model.gcemRound b64 0x3FDFFFFFFFFFFFFF = .ok (b64.round 0x3FDFFFFFFFFFFFFF) :=
+  gcemRound_eq b64 (by decide) (by decide) (by decide) (by decide) _ (by decide)
+
 
 end Tetl.C16.Props
